@@ -741,6 +741,13 @@ class Rewriter:
     def slicefill_rules(self, b):
         c = self.cfg
         cb = 'cb_try_fill' if c.get('cb') == 'try' else 'cb_fill'
+        if c.get('strip_nested'):
+            b = self.strip_nested_fns(b)
+        # value allocation (alloc_with family): one element, initialiser `f()` takes no index
+        b = self.sub('R28:typed-cast', r'\s+as \*mut T\b', '', b)
+        b = self.sub('R28:callback', r'(?<![\w.])f\(\)', 'self.%s(w, fs, 0, Ghost(ptr), Ghost(rsv), Ghost(blk))' % cb, b)
+        b = self.sub('R28:nested-call', r'(?<![\w.])inner_writer\((\w+), f\)', r'self.inner_writer__%s(w, fs, \1, Ghost(layout.size_), Ghost(rsv), Ghost(blk))' % (c.get('outer') or ''), b)
+        b = self.sub('R28:reborrow', r'&mut \*p\b', 'p', b)
         b = self.sub('R2:cast', r'\.cast::<\s*T\s*>\(\)', '', b)
         b = self.sub('R28:src-ptr', r'\bsrc\.as_ptr\(\)', 'src.addr', b)
         b = self.sub('R28:layout-for-value', r'\bLayout::for_value\(src\)', 'layout_for_src(src)', b)
@@ -755,7 +762,7 @@ class Rewriter:
         b = self.sub('R2:as_ptr', r'\.as_ptr\(\)', '', b)
         # ptr::write(ADDR, VALUE): address first, then the value (a call into user code), then the store -- evaluation order made explicit
         b = self.map_calls(b, r'(?<![\w.:])ptr::write',
-                           lambda m_, a: '{ let addr__ = %s; let v__ = %s; elem_write(w, fs, Ghost(blk), Ghost(dst), Ghost(layout.size_), addr__, v__) }' % (a[0], a[1]), 'R28:elem-write')
+                           lambda m_, a: '{ let addr__ = %s; let v__ = %s; elem_write(w, fs, Ghost(blk), Ghost(%s), Ghost(%s), addr__, v__) }' % (a[0], a[1], c.get('wbase') or 'dst', c.get('wsize') or 'layout.size_'), 'R28:elem-write')
         b = self.map_calls(b, r'(?<![\w.])(?:core::)?ptr::copy_nonoverlapping',
                            lambda m_, a: 'elems_copy(w, fs, Ghost(blk), %s)' % ', '.join(a), 'R28:elems-copy')
         b = self.map_calls(b, r'(?<![\w.:])slice::from_raw_parts_mut', lambda m_, a: 'mk_slice(%s)' % ', '.join(a), 'R28:mk-slice')
@@ -834,6 +841,31 @@ class Rewriter:
             o = m.end() - 1
             c = match_close(mm, o)
             b = b[:m.start()] + b[c + 1:]
+            self.fired('R18:nested-item-lifted')
+
+    def strip_nested_fns(self, b):
+        """`fn` items (with their attributes) declared inside the function body are removed from the body text: they are extracted as
+        functions of their own"""
+        while True:
+            mm = mask(b)
+            m = re.search(r'(?m)^(?:\s*#\[[^\]]*\]\s*\n)*\s*(?:unsafe )?fn \w+', mm[1:])
+            if not m:
+                return b
+            st = m.start() + 1
+            k = mm.index('{', m.end() + 1)
+            # skip the where clause / generics: first '{' at paren depth 0 after the signature
+            pd, k = 0, m.end() + 1
+            while True:
+                ch = mm[k]
+                if ch == '(':
+                    pd += 1
+                elif ch == ')':
+                    pd -= 1
+                elif ch == '{' and pd == 0:
+                    break
+                k += 1
+            c = match_close(mm, k)
+            b = b[:st] + b[c + 1:]
             self.fired('R18:nested-item-lifted')
 
     def strretain_rules(self, b):
